@@ -44,6 +44,11 @@ impl core::convert::From<SignatureVersion> for u8 {
     #[verifier::external_body]
     fn from(v: SignatureVersion) -> (r: u8) ensures r == sigver_to_u8(v) { unimplemented!() }
 }
+// `panic!("signature version {v:?}")` in the sources needs the derived Debug impl
+#[verifier::external]
+impl core::fmt::Debug for SignatureVersion {
+    fn fmt(&self, f: &mut core::fmt::Formatter<'_>) -> core::fmt::Result { f.write_str("SignatureVersion") }
+}
 impl vstd::std_specs::cmp::PartialEqSpecImpl for SignatureVersion {
     open spec fn obeys_eq_spec() -> bool { true }
     open spec fn eq_spec(&self, other: &SignatureVersion) -> bool { *self == *other }
